@@ -27,6 +27,7 @@ TECHNIQUE = "Lean 4 proof over an executable model + history correspondence with
 OBLIGATIONS = [
     "Grog.C13.tainted_executes",
     "Grog.C13.taint_consumed",
+    "Grog.C13.taint_frame",
     "Grog.C13.no_cache_always_executes",
     "Grog.C13.no_cache_never_restored",
     "Grog.C13.disabled_executes_all",
